@@ -10,7 +10,7 @@ use std::sync::{Arc, Barrier};
 type Obs = Vec<(usize, usize, usize)>;
 
 fn modes(k: usize) -> Vec<ScannerMode> {
-    match k % 5 {
+    match k % 7 {
         0 => vec![ScannerMode::new(
             "M",
             vec![Pattern::new("ab+".to_string(), 0), Pattern::new("c+".to_string(), 1)],
@@ -42,7 +42,9 @@ fn modes(k: usize) -> Vec<ScannerMode> {
         // while the cache lock is held)
         _ => vec![ScannerMode::new(
             "G",
-            vec![Pattern::new(format!("x{}\\b", "\u{e9}\u{20ac}a".repeat(14)), 0)],
+            // only 3-byte characters after a prefix of 0, 1 or 2 bytes: every byte offset is inside a
+            // character for one of the three alignments
+            vec![Pattern::new(format!("{}{}\\b", "x".repeat(k % 7 - 4), "\u{20ac}".repeat(40)), 0)],
             vec![],
         )],
     }
@@ -63,7 +65,7 @@ fn thread_actions(t: usize, shared: &scnr::Scanner) -> Vec<Result<Obs, String>> 
     let input = "abxabbcxa";
     let mut out = Vec::new();
     for step in 0..3 {
-        let k = (t + step) % 5;
+        let k = (t + 2 * step + 1) % 7;
         out.push(build_and_scan(k, input));
         out.push(Ok(scan(shared, input)));
         // a partially consumed iterator of the shared scanner with a mode switch
